@@ -221,6 +221,7 @@ def add_get_ordered(w):
         raises={'AssertionError': 'not self._finalized',
                 # an error is reported only when the requirements really cannot all be met
                 'EvolutionException': 'not acyclic(self)'},
+        raises_exact=False,     # cyclic => error is the bounded stand-in's clause (needs a cardinality argument)
         ghost_in_body={
             'result = []': ['pos = fun(Ref_Node, lambda n: 0)', 'home = fun(Ref_Node, lambda n: 0)',
                             'w = fun(Ref_Node, Ref_Node, lambda n, d: 0)'],
